@@ -64,7 +64,35 @@ def py_sat(h, o):
         if not isinstance(o, type):
             return False
         return True if not h[1] else issubclass(o, tuple(U.CLS[c] for c in h[1]))
+    if t == 'annot':
+        return py_sat(h[1], o) and all(py_vmean(v, o) for v in h[2])
     raise ValueError(h)
+
+
+_SENT = object()
+
+
+def py_vmean(v, o):
+    """the boolean meaning of a validator expression, written directly"""
+    t = v[0]
+    if t == 'is':
+        return bool(U.PREDICATES[v[1]](o))
+    if t == 'attr':
+        a = getattr(o, v[1], _SENT)
+        return a is not _SENT and py_vmean(v[2], a)
+    if t == 'eq':
+        return o == U.to_python(v[1])
+    if t == 'inst':
+        return isinstance(o, tuple(U.CLS[c] for c in v[1]))
+    if t == 'sub':
+        return isinstance(o, type) and issubclass(o, tuple(U.CLS[c] for c in v[1]))
+    if t == 'and':
+        return py_vmean(v[1], o) and py_vmean(v[2], o)
+    if t == 'or':
+        return py_vmean(v[1], o) or py_vmean(v[2], o)
+    if t == 'not':
+        return not py_vmean(v[1], o)
+    raise ValueError(v)
 
 
 def tokens(log):
